@@ -198,3 +198,32 @@ fn k07_ring_type_total_on_short_rings() {
     kani::cover!(n == 0);
     kani::cover!(n == 2 && t == crate::record::RingType::InnerRing);
 }
+
+/// C16 (bounded: one ring of 4 vertices; Z and M of the last vertex symbolic): a ring of a PolygonZ, a PolygonM or a
+/// multipatch is closed when its first and last vertices are EQUAL -- all coordinates, Z and M included. A ring whose
+/// ends coincide in plan but differ in Z or M (a ramp) is open and must get a copy of its first vertex appended.
+#[kani::proof]
+#[kani::unwind(8)]
+fn k_rings_closed_means_equal_in_every_coordinate() {
+    let z: f64 = if kani::any() { 1.0 } else { 7.0 };
+    let m: f64 = if kani::any() { 2.0 } else { 9.0 };
+    let first = PointZ::new(0.0, 0.0, 1.0, 2.0);
+    let ring = vec![first, PointZ::new(8.0, 9.0, 1.0, 2.0), PointZ::new(8.0, 0.0, 1.0, 2.0), PointZ::new(0.0, 0.0, z, m)];
+    let already_closed = z == 1.0 && m == 2.0;
+    let poly = PolygonZ::with_rings(vec![PolygonRing::Outer(ring.clone())]);
+    let r = poly.rings()[0].points();
+    assert!(r.len() == if already_closed { 4 } else { 5 });
+    assert!(r[0] == r[r.len() - 1]);
+    let mp = Multipatch::with_parts(vec![Patch::Ring(ring.clone())]);
+    let q = mp.patches()[0].points();
+    assert!(q.len() == if already_closed { 4 } else { 5 });
+    assert!(q[0] == q[q.len() - 1]);
+    let pm = PolygonM::with_rings(vec![PolygonRing::Outer(vec![
+        PointM::new(0.0, 0.0, 2.0), PointM::new(8.0, 9.0, 2.0), PointM::new(8.0, 0.0, 2.0), PointM::new(0.0, 0.0, m),
+    ])]);
+    let s = pm.rings()[0].points();
+    assert!(s.len() == if m == 2.0 { 4 } else { 5 });
+    assert!(s[0] == s[s.len() - 1]);
+    kani::cover!(already_closed);
+    kani::cover!(!already_closed);
+}
